@@ -61,6 +61,7 @@ def gen_case(rng, radii_z):
         c["pf"] = rng.choice(["cubic", "bcc", "hcp", "fcc", "diamond", "HCP", "Bcc", None,
                               0.5, 0.74, round(rng.uniform(0.2, 0.9), 3)])
         c["how"] = rng.choice(["pos", "kw"])
+        c["pftype"] = rng.randrange(5)
     if kind == "lattice":
         a = round(rng.uniform(2, 12), 3)
         c["lat"] = [a] + [rng.choice([None, round(rng.uniform(2, 12), 3)]) for _ in range(2)] + \
@@ -247,7 +248,14 @@ def run_case(run, c, reply, tbl, formula, Formula, me):
             if pf is None:
                 v = f.volume()
             elif c["how"] == "pos":
-                v = f.volume(pf)
+                import numpy as _np
+                from fractions import Fraction as _Fr
+                pfa = pf
+                if not isinstance(pf, str):
+                    # the same number as a numpy scalar / 0-d array / Fraction is still a number, not a lattice name
+                    # (numpy.float32 is left out: under numpy 2 promotion the whole result is then float32)
+                    pfa = [pf, _np.float64(pf), _np.array(pf), _Fr(pf), _np.array(pf, dtype=float)][c.get("pftype", 0)]
+                v = f.volume(pfa)
             else:
                 v = f.volume(packing_factor=pf)
         except Exception as e:  # noqa
